@@ -959,6 +959,8 @@ def ent_builder_call(ex, args, name):
         return b
     if meth == 'Mutation':
         return b
+    if meth in ('Fields', 'ClearedFields', 'AddedFields') and bk in ('Update', 'UpdateOne', 'Create'):
+        return mutation_call(ex, b, meth, a)
     if meth.startswith('SetNillable'):
         p = a[0]
         if p is None:
@@ -1400,6 +1402,12 @@ def scan_into(ex, b, sel, chosen, target):
 
 # ---- mutation model (for schema hooks)
 def mutation_call(ex, b, meth, a):
+    if meth == 'Fields':
+        return ex.mkslice(sorted(b.sets.keys())) if b.sets else Slice(None, 0, 0, 0)
+    if meth == 'ClearedFields':
+        return ex.mkslice(sorted(b.nulls)) if b.nulls else Slice(None, 0, 0, 0)
+    if meth == 'AddedFields':
+        return ex.mkslice(sorted(b.adds.keys())) if b.adds else Slice(None, 0, 0, 0)
     raise Unsupported('Mutation.' + meth)
 
 
